@@ -6,6 +6,7 @@ import (
 	"net"
 	"os"
 	"sync"
+	"syscall"
 	"time"
 )
 
@@ -40,11 +41,24 @@ type memConn struct {
 type faultKind int
 
 const (
-	faultNone  faultKind = iota
-	faultErr             // the call returns an error, nothing transferred
-	faultShort           // a write transfers half and returns an error / a read returns half then errors next time
-	faultEOF             // a read returns io.EOF (peer vanished) / a write returns EPIPE
+	faultNone    faultKind = iota
+	faultErr               // the call returns an error, nothing transferred
+	faultShort             // a write transfers half and returns an error / a read returns half then errors next time
+	faultEOF               // a read returns io.EOF (peer vanished) / a write returns EPIPE
+	faultTimeout           // the call fails with a deadline error (a net.Error whose Timeout() is true)
+	faultReset             // the call fails with *net.OpError{ECONNRESET}, as a TCP reset does
 )
+
+// err is what a failed operation of this plan returns
+func (pl *faultPlan) err(op string) error {
+	switch pl.kind {
+	case faultTimeout:
+		return os.ErrDeadlineExceeded
+	case faultReset:
+		return &net.OpError{Op: op, Net: "mem", Err: syscall.ECONNRESET}
+	}
+	return errInjected
+}
 
 // faultPlan fails the k-th (0-based) read and/or write of an endpoint.
 type faultPlan struct {
@@ -84,7 +98,7 @@ func (c *memConn) Read(p []byte) (int, error) {
 			case faultEOF:
 				return 0, io.EOF
 			default:
-				return 0, errInjected
+				return 0, pl.err("read")
 			}
 		}
 	}
@@ -137,18 +151,32 @@ func (c *memConn) Write(p []byte) (int, error) {
 				half := len(p) / 2
 				c.deliverLocked(p[:half])
 				c.mu.Unlock()
-				return half, errInjected
+				return half, pl.err("write")
 			}
 			c.mu.Unlock()
-			return 0, errInjected
+			return 0, pl.err("write")
 		}
 	}
 	gate := c.writeGate
 	if gate != nil {
 		c.inWrite++
 		c.cond.Broadcast()
+		dl := c.writeDL
 		c.mu.Unlock()
-		<-gate
+		if dl.IsZero() {
+			<-gate
+		} else { // a stalled write gives up at its deadline, as a socket write does
+			t := time.NewTimer(time.Until(dl))
+			select {
+			case <-gate:
+				t.Stop()
+			case <-t.C:
+				c.mu.Lock()
+				c.inWrite--
+				c.mu.Unlock()
+				return 0, os.ErrDeadlineExceeded
+			}
+		}
 		c.mu.Lock()
 		c.inWrite--
 		if c.closed {
@@ -319,6 +347,13 @@ func (c *memConn) WaitStalled(n int, d time.Duration) bool {
 		c.mu.Lock()
 	}
 	return true
+}
+
+// PlanFired: the fault plan has failed one of this endpoint's operations
+func (c *memConn) PlanFired() bool {
+	c.mu.Lock()
+	defer c.mu.Unlock()
+	return c.plan != nil && c.plan.fired
 }
 
 func (c *memConn) SetPlan(p *faultPlan) {
